@@ -13,6 +13,7 @@ import (
 	"log"
 	"os"
 	"sync"
+	"sync/atomic"
 	"time"
 
 	"github.com/magefile/mage/sh"
@@ -33,19 +34,22 @@ type shClosure struct {
 }
 
 type shOp struct {
-	Op    string            `json:"op"` // setenv | call | direct | par
-	K     string            `json:"k"`
-	V     string            `json:"v"`
-	C     int               `json:"c"`
-	Extra shSlice           `json:"extra"`
-	Fn    string            `json:"fn"`
-	Emap  map[string]string `json:"emap"`
-	Cmd   string            `json:"cmd"`
-	Args  shSlice           `json:"args"`
-	A      shSlice   `json:"a"`
-	B      shSlice   `json:"b"`
-	Extras []shSlice `json:"extras"` // par: one call per entry, all at once (default: a, b)
-	Reps   int       `json:"reps"`
+	Op     string            `json:"op"` // setenv | call | direct | par
+	K      string            `json:"k"`
+	V      string            `json:"v"`
+	C      int               `json:"c"`
+	Extra  shSlice           `json:"extra"`
+	Fn     string            `json:"fn"`
+	Emap   map[string]string `json:"emap"`
+	Cmd    string            `json:"cmd"`
+	Args   shSlice           `json:"args"`
+	A      shSlice           `json:"a"`
+	B      shSlice           `json:"b"`
+	Extras []shSlice         `json:"extras"` // par: one call per entry, all at once (default: a, b)
+	// par: "" = the calls go to closure C; "Output"/"Run" = direct sh.Output/sh.Run(Cmd, slice...) (reference behaviour)
+	ParFn   string `json:"parfn"`
+	BoundMs int    `json:"bound_ms"` // par: how long to wait for ALL children to be alive at once
+	Reps    int    `json:"reps"`
 }
 
 type shReq struct {
@@ -60,9 +64,17 @@ type shReq struct {
 
 type shRep struct {
 	Lines [][]string `json:"lines"`
-	Outs  []*string  `json:"outs"`
-	Errs  []string   `json:"errs"`
-	Snap  [][]string `json:"snap"`
+	// overlap as an observable: how many children were alive AT THE SAME TIME (each reports its argv when
+	// it starts and then waits for the gate, which the harness opens only when all have reported).
+	// Stalled: after the bound some call had neither started its child nor returned while another
+	// call's child was still waiting, i.e. a call was held back by another call.
+	Alive    int        `json:"alive"`
+	Returned int        `json:"returned_before_gate"`
+	Stalled  bool       `json:"stalled"`
+	WaitedMs int64      `json:"waited_ms"`
+	Outs     []*string  `json:"outs"`
+	Errs     []string   `json:"errs"`
+	Snap     [][]string `json:"snap"`
 }
 
 type shObs struct {
@@ -250,31 +262,51 @@ func init() {
 					start := make(chan struct{})
 					var wg sync.WaitGroup
 					wg.Add(n)
+					var returned int32
 					for gi := 0; gi < n; gi++ {
 						extra := shMk(arrays, specs[gi])
 						go func(gi int, extra []string) {
 							defer wg.Done()
+							defer atomic.AddInt32(&returned, 1)
 							<-start
-							rp.Outs[gi], errs[gi] = closures[o.C](extra...)
+							switch o.ParFn {
+							case "Output":
+								s, err := sh.Output(o.Cmd, extra...)
+								rp.Outs[gi], errs[gi] = &s, err
+							case "Run":
+								errs[gi] = sh.Run(o.Cmd, extra...)
+							default:
+								rp.Outs[gi], errs[gi] = closures[o.C](extra...)
+							}
 						}(gi, extra)
 					}
+					t0 := time.Now()
 					close(start)
 					done := make(chan struct{})
 					go func() { wg.Wait(); close(done) }()
-					// all children are running (each has reported its argv) -> open the gate
-					deadline := time.Now().Add(5 * time.Second)
-				wait:
-					for time.Now().Before(deadline) {
-						select {
-						case <-done:
-							break wait
-						default:
+					// The gate is opened only when every call has either its child alive (reported) or has
+					// returned (its child could not be started).  A held child cannot exit, so its call cannot
+					// return: if after the bound some call has done neither, it is being held back by
+					// another call of the same closure -> stalled (reported, then the gate is opened so
+					// that everything can finish).
+					bound := time.Duration(o.BoundMs) * time.Millisecond
+					if bound <= 0 {
+						bound = 15 * time.Second
+					}
+					for {
+						alive := len(shLines(q.OutFile))
+						ret := int(atomic.LoadInt32(&returned))
+						rp.Alive, rp.Returned = alive, ret
+						if alive+ret >= n {
+							break
 						}
-						if len(shLines(q.OutFile)) >= n {
+						if time.Since(t0) > bound {
+							rp.Stalled = true
 							break
 						}
 						time.Sleep(300 * time.Microsecond)
 					}
+					rp.WaitedMs = time.Since(t0).Milliseconds()
 					if f, err := os.Create(q.Gate); err == nil {
 						f.Close()
 					}
@@ -286,6 +318,9 @@ func init() {
 					rp.Lines = shLines(q.OutFile)
 					rp.Snap = shSnap(arrays)
 					ob.Reps = append(ob.Reps, rp)
+					if rp.Stalled {
+						break
+					}
 				}
 				os.Remove(q.Gate)
 				os.Unsetenv("VERIF_ARGV_GATE")
